@@ -1,7 +1,7 @@
 """C18: Juniper $9$ codec round trip, well-formedness, malformed input refused with ValueError."""
 import vlib
 
-COQ_DEPS = ["lib/Str.v", "gen/G_juniper.v", "model/JunModel.v", "model/JunProofs.v", "lib/PyLib.v", "lib/PyRe.v", "gen/G_fn_jun.v", "refine/RefJun.v", "refine/RefJunEnc.v"]
+COQ_DEPS = ["lib/Str.v", "gen/G_juniper.v", "model/JunModel.v", "model/JunProofs.v", "lib/PyLib.v", "lib/PyRe.v", "gen/G_fn_jun.v", "refine/RefJun.v", "refine/RefJunEnc.v", "refine/RefJunDec.v", "lib/Rx.v", "lib/RxFacts.v", "lib/RxSub.v", "lib/RxComplete.v"]
 MODEL_DEPS = COQ_DEPS + ["model/DriverJun.v", "model/DriverFn.v", "model/Driver.v", "model/Extract.v"]
 TRUSTED_BASE = [
     "Coq 8.16.1 kernel; vm_compute for the finite sweeps over the generated tables (7 rows x 65 previous characters x 256 code points; table sanity facts), lifted with forallb_forall",
